@@ -41,6 +41,7 @@ type Options struct {
 	MapRange    bool // range over the single-entry map
 	StateProbes bool // sprinkle state probes ({{.}}, isset, yield content)
 	Sites       bool // C12: probe statements are {{mark(K)}} site placeholders, only outside try; every file defines block zb
+	Callbacks   bool // use the custom Ranger / Renderer values (user callbacks that can fail)
 	MultiLine   bool // actions may contain newlines (whitespace inside an action is free)
 	TargetTry   bool // place exactly one instrumented try statement (C13); probes only inside its body
 	CatchForm   int  // 0: no catch, 1: catch without variable, 2: catch with variable
@@ -53,7 +54,7 @@ func SwarmOptions(t *sim.Tape) Options {
 		Probes: true, ProbeExpr: on(2, 3),
 		Try: on(3, 4), Blocks: on(3, 4), Include: on(2, 3), Exec: on(1, 3), Extends: on(1, 2), Import: on(1, 2),
 		Range: on(4, 5), If: on(3, 4), Vars: on(3, 4), Dump: on(1, 4), Trim: on(1, 4), Comments: on(1, 4),
-		MaxStmts: t.Range(2, 6), MaxDepth: t.Range(1, 4), MapRange: on(1, 3), StateProbes: on(2, 3), MultiLine: on(1, 2),
+		MaxStmts: t.Range(2, 6), MaxDepth: t.Range(1, 4), MapRange: on(1, 3), StateProbes: on(2, 3), MultiLine: on(1, 2), Callbacks: on(1, 2),
 	}
 }
 
@@ -331,6 +332,9 @@ func (g *G) stmt(sc *scopeInfo) {
 		case 3:
 			g.act(g.strExpr(*sc, 0) + []string{" | raw", " | lower", " | upper | lower", " | repeat: 2"}[g.T.Choose(4)])
 		}
+		if g.O.Callbacks && g.T.Choose(6) == 5 {
+			g.act("rnd") // a Renderer: renders itself, and is a fault point
+		}
 	case 2:
 		if g.O.Sites {
 			if sc.inTry == 0 {
@@ -446,6 +450,11 @@ func (g *G) rangeStmt(sc scopeInfo) {
 		elem Kind
 	}
 	subs := []subj{{"names", KStr}, {"root.Items", KItem}, {"ints(0, 2)", KInt}, {"item.Tags", KStr}, {"root.NoNames", KStr}, {"none", KStr}}
+	if g.O.Callbacks && !g.O.TargetTry {
+		// custom Ranger whose Range() is a fault point. Not in C13 worlds: it is stateful (a body
+		// that fails half-way leaves it half-consumed, and a later range over it legitimately differs)
+		subs = append(subs, subj{"rng", KStr})
+	}
 	if sc.ctx == KRoot {
 		subs = append(subs, subj{".Items", KItem}, subj{".Names", KStr})
 	}
